@@ -35,6 +35,12 @@ CHECKS = {
    text="Generated-input search: valid, hostile-layout, single-token-corrupted, multi-statement (stray semicolons) and lexical-soup inputs, each run through every convenience, byte, context, timeout, batch, low-level (plain/context/positions), validator and recovery entry point; verdicts, trees and error codes must agree pairwise; batch calls must equal the individual calls and name the first failing index. The three low-level statement loops are also compared under the same parser options (strict, dialect).",
    note="Trusted: astdump as tree equality; error code = Code of the *errors.Error reachable with errors.As; inputs made only of semicolons/blank/comments are excluded as the property says.",
    design="4/C07"),
+ "C13": dict(
+   technique="property-based testing: generated rejected inputs x 15 failing entry points against a validity predicate on the returned error (structure, code family vs independently known failing stage, location range, cause chain) plus a repeat-call determinism relation",
+   level="exploration",
+   text="Generated-input search over rejected inputs: single-token corruptions of generated statements (one-line and multi-line), 13 kinds of lexical error after a valid prefix, soup, nesting beyond the depth limit in five constructs, bad statement starts; through every entry point that can fail. Each reported error must unwrap to *errors.Error with a documented code of the right family (the failing stage is known from running the tokenizer alone), a non-empty message, an in-range location when set, a reachable cause, and must be identical when the call is repeated after unrelated parses.",
+   note="Trusted: the code registry read from pkg/errors/errors.go of the tree under test; stage classification by a tokenizer-only run; byte/token limit violations are exercised in C02.",
+   design="4/C13"),
 }
 
 def main():
